@@ -2193,16 +2193,32 @@ def _run(ck: core.Check, env: Env, info):
     run_direct(ck, env)
     # ---- onnxruntime: bodies that use their arguments
     n_ort = 0
+    jobs = []
     for mod in env.mods:
         for prog in ORT_PROGS:
             for rep in range(ck.pick(1, 5)):
-                seed = rng.randrange(1 << 30)
-                n_ort += 1
-                ck.count(("ort", mod, prog))
-                r = run_ort_prog(env, mod, prog, seed)
-                if r is not None:
-                    ck.failure(f"{prog_ctor(prog)}:ort:{prog}:{r[0]}", f"{mod}.{prog}: {r[0]}: {r[1]}",
-                               {"kind": "ort", "mod": mod, "prog": prog, "seed": seed})
+                jobs.append((mod, prog, rng.randrange(1 << 30)))
+    # in child processes (one per module, in parallel): a native crash of onnx / onnxruntime is a per-program result
+    try:
+        from harness import lib_c19ort
+
+        ort_results = lib_c19ort.run_jobs(jobs)
+    except Exception as e:  # noqa: BLE001
+        ck.broken("correspondence", "C19 onnxruntime child processes", f"{type(e).__name__}: {e}")
+        ort_results = [None] * len(jobs)
+    crashes = 0
+    for (mod, prog, seed), r in zip(jobs, ort_results):
+        n_ort += 1
+        ck.count(("ort", mod, prog))
+        if r is not None and r[0] == "child-crash":
+            crashes += 1
+            ck.broken("correspondence", "C19 onnxruntime program crashed its child process", f"{mod}.{prog} seed={seed}: {r[1]}")
+        elif r is not None and str(r[0]).startswith("harness:"):
+            ck.broken("correspondence", "C19 onnxruntime program not observable", f"{mod}.{prog}: {r[0]} {r[1]}")
+        elif r is not None:
+            ck.failure(f"{prog_ctor(prog)}:ort:{prog}:{r[0]}", f"{mod}.{prog}: {r[0]}: {r[1]}",
+                       {"kind": "ort", "mod": mod, "prog": prog, "seed": seed})
+    ck.cov["ort_child_crashes"] = crashes
     ck.cov.update({
         "correspondence_cases": len(cases),
         "correspondence_mismatches": mismatches,
@@ -2267,10 +2283,12 @@ def replay(ck: core.Check, doc) -> bool:
                 hit = hit or mine
         return hit
     if case.get("kind") == "ort":
-        r = run_ort_prog(env, case["mod"], case["prog"], case["seed"])
+        from harness import lib_c19ort
+
+        r = lib_c19ort.run_jobs([(case["mod"], case["prog"], case["seed"])], 1)[0]
         if r is not None:
-            print(f"{case['mod']}.{case['prog']}: {r[0]}: {r[1]}")
-        return r is not None
+            print(f"* {case['mod']}.{case['prog']}: {r[0]}: {r[1]}")
+        return r is not None and r[0] != "child-crash" and not str(r[0]).startswith("harness:")
     install_spy(env)
     try:
         # twice in one process: argument Vars must be fresh for every call, also for equal operand types
